@@ -8,6 +8,9 @@ Ring 1: FM/Props/C03.lean — RELAYOUT_break / RELAYOUT_spaces (the two re-layou
 Ring 2: tie fullwrap (complete wrapper models = real wrappers), tie render.
 Ring 3: (A) fmt(relayout(x), o) == fmt(x, o) for re-layouts that the parser itself reads as the same document and that leave
         tag-adjacent newlines and hard breaks alone; (B) fmt(fmt(x, o1), o2) == fmt(x, o2) for o1 = o2 except width / mode.
+        Tag-dense paragraphs (several tags and glued open/close pairs per line) get their own stream for (A), (B) and the mdwrap
+        tie; a (B) failure counts as the introduced-tag-newline finding only if every tag touches the same neighbours in the
+        intermediate and the direct output (tag_glue): a pair glued in one and split in the other is not a wrap point.
 """
 from __future__ import annotations
 
@@ -22,6 +25,8 @@ from leanbuild import lean_obligations
 
 TAG_EDGE = re.compile(r"(%\}|\}\}|#\}|-->|\{%|\{\{|\{#|<!--)")
 WIDTHS = (0, 12, 20, 30, 40, 60, 88)
+TAG_FIRST_WIDTHS = tuple(range(16, 132))
+TAG_TARGET_WIDTHS = (0, 20, 30, 40, 60, 88, 100, 120)
 
 SPECIAL = [
     "The details are all given in section 2. of the appendix near the end of the book, as is 3. and 14. too, it is said.\n",
@@ -42,6 +47,82 @@ SPECIAL = [
     "Setext heading here\n===\n\nbody text long enough to be wrapped at narrow widths, it is\n",
     "- [ ] task item with enough words to wrap around at the narrow widths we use\n",
 ]
+
+# hand-written tag-dense paragraphs (forms, callouts): glued open/close pairs after other tags of the same line
+TAG_SPECIAL = [
+    "Please state your name {% field id=1 %}{% /field %} and, past the {% sep %} mark, the town you live in {% field id=2 %}{% /field %} "
+    "as well as the year {% field id=3 kind=\"number\" %}{% /field %} in which you moved there, thank you.\n",
+    "- an item with a note <!-- note id=7 --><!-- /note --> in it, then a marker {# todo #} and a second pair {# c #}{# /c #} that is "
+    "followed by enough plain words to be wrapped a few times at the widths used here\n",
+    "> quoted words {{ user }} and a pair {{ slot }}{{ /slot }} here, then {% callout kind=\"tip\" %}short text{% /callout %} and a "
+    "last pair {% t %}{% /t %}, all of it long enough to wrap more than once inside the quote.\n",
+]
+TAG_FAMILIES = [("{% ", " %}"), ("{% ", " %}"), ("{% ", " %}"), ("<!-- ", " -->"), ("{# ", " #}"), ("{{ ", " }}")]
+TAG_NAMES = ["field", "note", "t", "callout"]
+TAG_ATTRS = ["", "", " id=1", " a=1 b=2", " kind=\"string\" label='x'"]
+TAG_RE = re.compile(r"\{%.*?%\}|\{\{.*?\}\}|\{#.*?#\}|<!--.*?-->", re.S)
+# two tags of one family with only whitespace between them: the trigger of C06-separated-tags-lose-space
+SEPARATED_TAGS = re.compile(r"%\}\s+\{%|\}\}\s+\{\{|#\}\s+\{#|-->\s+<!--")
+
+
+def tag_unit(rng) -> str:
+    """one inline template-tag construct: a glued open/close pair, a pair around a word or a few words, a single tag (possibly
+    glued to punctuation)"""
+    o, c = rng.choice(TAG_FAMILIES)
+    name = rng.choice(TAG_NAMES)
+    opening, closing = f"{o}{name}{rng.choice(TAG_ATTRS)}{c}", f"{o}/{name}{c}"
+    r = rng.random()
+    if r < 0.40:
+        return opening + closing
+    if r < 0.52:
+        return opening + rng.choice(mdgen.WORDS) + closing
+    if r < 0.62:
+        return f"{opening} {rng.choice(mdgen.WORDS)} {rng.choice(mdgen.WORDS)} {closing}"
+    if r < 0.72:
+        return opening + rng.choice([",", ".", ":", ")"])
+    if r < 0.77:
+        return "(" + opening
+    return opening
+
+
+def tag_line(rng, n: int) -> str:
+    """n space-separated tokens, about one in four a tag construct; the first is a plain word (a leading comment would be an HTML
+    block) and two tag constructs never follow each other directly (same-family tags separated by one space are glued by the
+    formatter: known finding C06-separated-tags-lose-space)"""
+    parts = [rng.choice(mdgen.WORDS)]
+    while len(parts) < n:
+        if rng.random() < 0.27 and not TAG_RE.search(parts[-1]):
+            parts.append(tag_unit(rng))
+        else:
+            parts.append(rng.choice(mdgen.WORDS + mdgen.END_WORDS))
+    return " ".join(parts)
+
+
+def tag_document(rng) -> str:
+    """a tag-dense paragraph on ONE source line, plain or inside a list item / block quote / nested item"""
+    p = tag_line(rng, rng.randint(10, 42))
+    r = rng.random()
+    if r < 0.55:
+        return p + "\n"
+    if r < 0.70:
+        return rng.choice(["- ", "* ", "1. "]) + p + "\n"
+    if r < 0.82:
+        return "> " + p + "\n"
+    if r < 0.91:
+        return "- first\n  - " + p + "\n"
+    return "intro words\n\n" + rng.choice(["> - ", "10. "]) + p + "\n\n" + tag_line(rng, rng.randint(6, 20)) + "\n"
+
+
+def tag_glue(text: str) -> list:
+    """per template tag / comment in order: (glued to its left neighbour?, the tag, glued to its right neighbour?) where glued =
+    no whitespace in between.  Line wrapping exchanges whitespace for whitespace, so two formatted outputs of one document that
+    differ only in where lines were wrapped have the same list."""
+    out = []
+    for m in TAG_RE.finditer(text):
+        before = text[m.start() - 1] if m.start() > 0 else " "
+        after = text[m.end()] if m.end() < len(text) else " "
+        out.append((not before.isspace(), re.sub(r"\s+", " ", m.group(0)), not after.isspace()))
+    return out
 
 
 def fmt(doc, o):
@@ -292,14 +373,14 @@ def attribute_relayout(doc, rd, o):
 ESCAPABLE = re.compile(r"(?:(?<=\s)|^)(?:[-+*>#]|\d{1,9}\)|#{2,6})(?=\s|$)", re.M)
 
 
-def rewidth_oracle(ctx: Ctx, docs, label: str, k: int) -> None:
+def rewidth_oracle(ctx: Ctx, docs, label: str, k: int, first_widths=WIDTHS, target_widths=WIDTHS) -> None:
     rng = ctx.rng
     for i, doc in enumerate(docs):
         for _ in range(k):
-            o2 = opts(rng)
+            o2 = opts(rng) if target_widths is WIDTHS else opts(rng, W=rng.choice(target_widths))
             if re.search(r"[\"'“”‘’]|\.\.|…", doc):
                 o2.update(smartquotes=False, ellipses=False)     # typography applied twice is C02/C08/C09's subject
-            o1 = dict(o2, width=rng.choice([w for w in WIDTHS if w != o2["width"]]), semantic=rng.random() < 0.5)
+            o1 = dict(o2, width=rng.choice([w for w in first_widths if w != o2["width"]]), semantic=rng.random() < 0.5)
             try:
                 direct = fmt(doc, o2)
                 via = fmt(fmt(doc, o1), o2)
@@ -331,6 +412,19 @@ def attribute_rewidth(doc, o1, o2):
     if re.search(r"\{%|\{\{|\{#|<!--", d):
         d = strip_tags(d)
         if ok(d):
+            # The finding is about a line break that WRAPPING puts next to a tag, i.e. at a space of the text.  It explains the
+            # failure only if the intermediate and the direct output differ around the tags by such breaks alone: every tag
+            # touches the same neighbours (glued, or separated by whitespace) in both.  A tag glued to its neighbour in one
+            # output and separated from it in the other (e.g. the closing tag of '{% f %}{% /f %}' moved to a line of its own
+            # at one width only) is not a wrap point, and the newline next to it then persists: reported, not attributed.
+            # (Documents holding two same-family tags separated by whitespace only are left out of this refinement: whether
+            # those get glued is C06-separated-tags-lose-space's subject.)
+            if not SEPARATED_TAGS.search(doc):
+                try:
+                    if tag_glue(fmt(doc, o1)) != tag_glue(fmt(doc, o2)):
+                        return None
+                except Exception:
+                    return None
             return "C03-introduced-tag-newline-persists"
     nd = ESCAPABLE.sub("w", d)
     if nd != d:
@@ -342,6 +436,33 @@ def attribute_rewidth(doc, o1, o2):
     if nd != d and ok(nd):
         return next((fid for fid, rx in c01.TRIGGERS if rx.search(doc)), "C01-unescaped-line-head-hazards")
     return None
+
+
+def tie_tag_lines(ctx: Ctx, n: int) -> None:
+    """the hard-break + tag-newline layers (model op mdwrap, symbolic base wrapper — as C06's tie_layers) on texts whose lines
+    are tag-dense: complete tags before a glued pair on one line, pairs on continuation lines, under the item / quote prefixes"""
+    import astser
+    from common import dec, enc, run_driver
+    from props import c06
+    ap, lw, th, tw = c06._real()
+    rng = ctx.rng
+    real = lw._add_markdown_hard_break_handling(th.add_tag_newline_handling(astser.symbolic_wrapper))
+    cases = []
+    for _ in range(n):
+        lines = [tag_line(rng, rng.randint(2, 9)) if rng.random() < 0.75 else rng.choice(c06.LINES) for _ in range(rng.randint(1, 5))]
+        s0 = rng.choice(["", "  ", "> ", "> > ", "    "])
+        cases.append(("\n".join(l if j == 0 or rng.random() < 0.5 else s0 + l for j, l in enumerate(lines)), rng.choice(["", "- ", "> "]), s0))
+    outs = run_driver([f"mdwrap\t{enc(t)}\t{enc(i)}\t{enc(s)}" for t, i, s in cases], workers=16)
+    bad = 0
+    for (t, i, s), o in zip(cases, outs):
+        exp = real(t, i, s)
+        ctx.count(["mdwrap-taglines", t, i, s], nontrivial="\n" in t)
+        ctx.bump("tie:tag-lines")
+        if o == "bad-op" or dec(o) != exp:
+            bad += 1
+            ctx.tie_broken("mdwrap", {"text": t, "i0": i, "s0": s}, o if o == "bad-op" else dec(o), exp)
+    ctx.obligation(f"tie mdwrap (tag-dense lines): hard-break + tag-newline layers on {len(cases)} texts with several tags and glued pairs per line",
+                   "correspondence", bad == 0, f"{bad} disagreement(s)")
 
 
 def replay_findings(ctx: Ctx) -> None:
@@ -373,6 +494,16 @@ def run(ctx: Ctx) -> None:
     rewidth_oracle(ctx, SPECIAL, "rewidth:special", 6)
     sweep_oracle(ctx, SPECIAL + docs[:ctx.scale(6, 150)], "sweep")
     rewidth_oracle(ctx, docs, "rewidth:generated", 2)
+    # tag-dense paragraphs (run last: the streams of the families above are as before)
+    if driver_ok:
+        ctx.guard("tie tag lines", tie_tag_lines, ctx.scale(4000, 60000))
+    tag_docs = TAG_SPECIAL + [tag_document(rng) for _ in range(ctx.scale(150, 4000))]
+    relayout_oracle(ctx, tag_docs, "relayout:tag-dense", 1)
+    rewidth_oracle(ctx, tag_docs, "rewidth:tag-dense", 3, first_widths=TAG_FIRST_WIDTHS, target_widths=TAG_TARGET_WIDTHS)
+    ctx.rule("tag-dense paragraphs (one word in four a template-tag construct: glued open/close pairs, pairs around words, single tags, "
+             "tags glued to punctuation; plain / list item / quote / nested): re-layout as above, re-width with every first width 16..131 "
+             "and target widths {0,20,30,40,60,88,100,120}; a re-width failure is attributed to the introduced-tag-newline finding only "
+             "if every tag touches the same neighbours in the intermediate and the direct output")
     ctx.rule("re-layout: up to 12 random moves (multiply spaces, break at a space with the paragraph's continuation prefix, join two lines, "
              "re-indent a continuation line) per document, each validated by Marko's reading, × sampled option sets; "
              "re-width: option pairs differing in width ∈ {0,12,20,30,40,60,88} and line-break mode")
